@@ -26,19 +26,19 @@ CLAIMS = {
         'model_checking',
         'TLC checks the C22 monitors (after every request the keyring file, loaded through the agent\'s own loader, yields exactly the live key set '
         'with the same primary key; a rejected request changes neither keyring nor file) exhaustively on the keyring part of spec/KeyOps.tla (all '
-        'request sequences up to the bound over install/use/remove x {three valid keys, two wrong lengths, undecodable request, non-base64 API '
+        'request sequences up to the bound over install/use/remove x {valid keys of 16, 24 and 32 bytes, two wrong lengths, undecodable and empty request, non-base64 API '
         'argument} from three initial keyrings) and on every step of TLC-simulated request sequences plus all request pairs executed on a real '
         'quiet node with Keyring + KeyringFile: the real internal queries are delivered in wire format through NotifyMsg, a step ends when its '
         'reply packet is captured on the transport, the file is reloaded with agent.Create(KeyringFile), and TLC validates each observation '
         'against the model.',
         'Trusts TLC, the in-process transport capture, the wire-format mirror of the query / key request messages. Requests are handled one after '
-        'another; file writes succeed; empty request payloads are excluded (handler panic, property C09).',
+        'another; file writes succeed. The reload through the agent loader is an observed step (ok/err, keys, primary), never a driver assertion.',
         'TLA+ spec + TLC exhaustive check; TLC-generated request sequences replayed on a real node; TLC trace validation with property monitors',
         '5 C22',
     ),
     'C23': (
         'model_checking',
-        'TLC enumerates from spec/KeyOps.tla every reply multiset of size <=4 over {ok with 4 key sets, ok+message, failed, wrong type byte, '
+        'TLC enumerates from spec/KeyOps.tla every reply multiset of size <=4 over {ok with 4 key sets, ok+message, failed with and without a message, wrong type byte, '
         'undecodable, empty payload} x 1..4 members x list/install/use/remove and, for truncation, key counts x key lengths 16/24/32 bytes x every '
         'size limit within 1 of a size the truncation loop compares with (exact msgpack sizes); the model passes the C23 monitors on all of them. '
         'Binding: each input is executed for real -- KeyManager operations on the first node of a quiet cluster with that many memberlist members, '
@@ -426,7 +426,7 @@ def run_c22(ctx, replay=None):
             if s and s[0]["a"] == "kinit" and len(s) > 1:
                 inputs.append({"init": s[0]["init"], "steps": s[1:]})
         # plus every pair of requests from every initial keyring (quick: a seeded third of them)
-        ops = [{"a": "kop", "op": o, "k": k} for o in ("install", "use", "remove") for k in range(1, 8)]
+        ops = [{"a": "kop", "op": o, "k": k} for o in ("install", "use", "remove") for k in range(1, 9)]
         pairs = [{"init": init, "steps": [a, b]} for init in ([1], [2, 1], [1, 2, 3]) for a in ops for b in ops]
         inputs += pairs if thorough else rng.sample(pairs, len(pairs) // 3)
         for i, x in enumerate(inputs):
@@ -442,7 +442,7 @@ def run_c22(ctx, replay=None):
             kinds[key] = kinds.get(key, 0) + 1
     cov = {
         "states": mc.distinct if mc else 1, "transitions": mc.generated if mc else 1, "exhaustive": bool(mc),
-        "model_constants": "keys {k1 16B, k2 24B, k3 32B} + {15B, 33B, undecodable request, non-base64 API argument}; initial rings "
+        "model_constants": "keys {k1 16B, k2 24B, k3 32B} + {15B, 33B, undecodable request, non-base64 API argument, empty request payload}; initial rings "
                            "<<1>>, <<2,1>>, <<1,2,3>>; every request sequence of length <= %d" % (5 if thorough else 4),
         "traces_validated_against_impl": rep.traces, "trace_lines": rep.lines, "divergences": len(rep.diverged),
         "evaluations": summ.get("steps", 0), "distinct_nontrivial": len(set(json.dumps([x["init"], x["steps"]]) for x in inputs)),
@@ -455,7 +455,7 @@ def run_c22(ctx, replay=None):
     }
     assume = ["requests are handled one after another (the next one is sent after the previous reply was captured)",
               "file system writes succeed (a failing os.WriteFile is outside the property's 'rejected as invalid')",
-              "empty request payloads are excluded (they crash the handler: property C09)"]
+              "empty request payloads are included (answered with an error reply since /repo commit 4990528)"]
     vlib.finish(ctx, "model_checking", cov, assume, new, known)
 
 
@@ -479,8 +479,9 @@ def run_c23(ctx, replay=None):
         agg = [s[0] for s in vlib.edge_schedules(r)]
         if len(agg) < 1000:
             raise vlib.Inconclusive("only %d aggregation inputs enumerated" % len(agg))
-        if not thorough:
-            agg = rng.sample(agg, 700)
+        if not thorough:       # every input with at most one reply, a seeded sample of the others
+            small = [x for x in agg if len(x["rs"]) <= 1]
+            agg = small + rng.sample([x for x in agg if len(x["rs"]) > 1], 700 - len(small))
         for x in agg:
             rng.shuffle(x["rs"])        # arrival order
         ns = list(range(0, 61)) if thorough else TRUNC_NS_QUICK
@@ -516,7 +517,8 @@ def run_c23(ctx, replay=None):
         raise vlib.Inconclusive("%d of %d aggregation runs were overtaken by the query timeout" % (late, len(agg)))
     cov = {
         "states": dist or 1, "transitions": gen or 1, "exhaustive": bool(dist),
-        "model_constants": "aggregation: reply multisets <= 4 over {ok x 4 key sets, ok+message x 2, failed, wrong type byte, undecodable, empty}, "
+        "model_constants": "aggregation: reply multisets <= 4 over {ok x 4 key sets, ok+message x 2, failed, failed without message (captured from a "
+                           "real handler given a corrupt request), wrong type byte, undecodable, empty}, "
                            "members 1..4, list/install/use/remove; truncation: key counts %s, keys of 16/24/32 bytes, every size limit within 1 "
                            "of a size the loop compares with" % ("0..60" if thorough else TRUNC_NS_QUICK),
         "traces_validated_against_impl": rep.traces, "trace_lines": rep.lines, "divergences": len(rep.diverged),
